@@ -7,7 +7,8 @@
 From Coq Require Import ZArith List Bool Sorted.
 From Mesa Require Import Generated.Tables Model.Devs Model.DevsSpec
   Proofs.DevsProofs Proofs.DevsOrderProofs Proofs.DevsOnceProofs Proofs.DevsLiveProofs Proofs.DevsAtomicProofs
-  Proofs.DevsTopProofs Proofs.DevsTop14Proofs Model.Heap Model.DevsHeap Proofs.HeapProofs Proofs.DevsHeapProofs Proofs.DevsHeapSimProofs Proofs.DevsBridge.
+  Proofs.DevsTopProofs Proofs.DevsTop14Proofs Model.Heap Model.DevsHeap Proofs.HeapProofs Proofs.DevsHeapProofs Proofs.DevsHeapSimProofs Proofs.DevsBridge
+  Model.DevsLife Model.DevsHeapLife Proofs.DevsLifeProofs Proofs.DevsBoundaryProofs Proofs.DevsHeapLifeProofs.
 From Coq Require Import Permutation.
 Import ListNotations.
 Open Scope Z_scope.
@@ -375,6 +376,112 @@ Theorem C14_peek_of_source : forall st n, inv st -> 1 <= n ->
 Proof. exact peek_of_source. Qed.
 Print Assumptions C14_peek_of_source.
 
+(* ---------------------------------------------------------------- the life cycle (Model/DevsLife.v) *)
+(* The correspondence runs `run_xcase`: histories of operations of Devs.v, reset() and setup(<a new model>) on a simulator
+   that was or was not set up.  `xreach cfg m` = m is a state such a life cycle passes through. *)
+(* the event-list invariant and the pop-min discipline hold in every state of every life cycle *)
+Theorem C14_lifecycle_invariant : forall cfg m, xreach cfg m -> inv (m_st m).
+Proof. exact xreach_inv. Qed.
+Print Assumptions C14_lifecycle_invariant.
+
+Theorem C14_lifecycle_order : forall cfg m e rest x, xreach cfg m -> pop_event (s_events (m_st m)) = Some (e, rest) ->
+  e_cancelled e = false /\ (In x (s_events (m_st m)) -> e_cancelled x = false -> x = e \/ ev_lt e x).
+Proof. exact xreach_next_event_is_least. Qed.
+Print Assumptions C14_lifecycle_order.
+
+(* over a whole life cycle, reset() included, no event id is executed twice *)
+Theorem C14_lifecycle_once : forall cfg fuel b ops m' l,
+  xrun_state cfg fuel (xinit cfg b) ops = (m', l) -> NoDup (map e_uid (execs l)).
+Proof. exact executed_at_most_once_lifecycle. Qed.
+Print Assumptions C14_lifecycle_once.
+
+(* what setup() does: refused at a non-zero clock, refused while events are scheduled, otherwise a model is attached *)
+Theorem C14_setup_outcome : forall cfg fuel m m' ob l, xstep cfg fuel m XSetup = (m', ob, l) ->
+  (s_time (m_st m) <> 0 /\ ob = [-1; E_SETUP_TIME]) \/
+  (s_time (m_st m) = 0 /\ s_events (m_st m) <> [] /\ ob = [-1; E_SETUP_EVENTS]) \/
+  (s_time (m_st m) = 0 /\ s_events (m_st m) = [] /\ m' = {| m_st := setup_state cfg (m_st m); m_setup := true |}).
+Proof. exact setup_outcome. Qed.
+Print Assumptions C14_setup_outcome.
+
+(* C18 for the life-cycle calls: a refused setup() and a run call without a model change nothing at all *)
+Theorem C18_devs_atomic_setup : forall cfg fuel m m' ob l, xstep cfg fuel m XSetup = (m', ob, l) ->
+  (ob = [-1; E_SETUP_TIME] \/ ob = [-1; E_SETUP_EVENTS]) -> m' = m /\ l = [].
+Proof. exact setup_rejected_atomic. Qed.
+Print Assumptions C18_devs_atomic_setup.
+
+Theorem C18_devs_atomic_run_without_model : forall cfg fuel m o m' ob l, m_setup m = false -> is_run o = true ->
+  xstep cfg fuel m (XOp o) = (m', ob, l) -> m' = m /\ ob = [-1; E_NOSETUP] /\ l = [].
+Proof. exact run_without_model_atomic. Qed.
+Print Assumptions C18_devs_atomic_run_without_model.
+
+(* reset(): no model, empty list, clock at the start; the id counter, the old model's step counter and dead callables stay *)
+Theorem C14_reset_outcome : forall cfg fuel m m' ob l, xstep cfg fuel m XReset = (m', ob, l) ->
+  m_setup m' = false /\ s_events (m_st m') = [] /\ s_time (m_st m') = 0 /\ s_uid (m_st m') = s_uid (m_st m) /\
+  s_dead (m_st m') = s_dead (m_st m) /\ s_steps (m_st m') = s_steps (m_st m) /\ l = [].
+Proof. exact reset_outcome. Qed.
+Print Assumptions C14_reset_outcome.
+
+(* reset() then setup() always succeeds and gives the event list of a freshly set up simulator (up to the id counter) *)
+Theorem C14_reset_then_setup : forall cfg fuel m m1 ob1 l1 m2 ob2 l2, xstep cfg fuel m XReset = (m1, ob1, l1) ->
+  xstep cfg fuel m1 XSetup = (m2, ob2, l2) ->
+  m_setup m2 = true /\ s_time (m_st m2) = 0 /\ s_steps (m_st m2) = 0 /\
+  s_events (m_st m2) = s_events (setup_state cfg (set_uid fresh (s_uid (m_st m)))).
+Proof. exact reset_then_setup. Qed.
+Print Assumptions C14_reset_then_setup.
+
+(* cancel_event of an event that already ran (no longer in the list) or is already cancelled does nothing *)
+Theorem C14_cancel_executed_noop : forall st tag,
+  Forall (fun e => e_tag e <> tag \/ e_step e = true) (s_events st) -> do_cancel st tag = st.
+Proof. exact cancel_absent_noop. Qed.
+Print Assumptions C14_cancel_executed_noop.
+
+Theorem C14_cancel_cancelled_noop : forall st tag,
+  Forall (fun e => e_tag e = tag -> e_step e = false -> e_cancelled e = true) (s_events st) -> do_cancel st tag = st.
+Proof. exact cancel_cancelled_noop. Qed.
+Print Assumptions C14_cancel_cancelled_noop.
+
+Theorem C14_cancel_idempotent : forall st tag, do_cancel (do_cancel st tag) tag = do_cancel st tag.
+Proof. exact cancel_idempotent. Qed.
+Print Assumptions C14_cancel_idempotent.
+
+(* the heap-array simulator with the same life-cycle layer refines run_xcase (this is what the heapq tie runs) *)
+Theorem C14_heap_lifecycle_refines : forall c, map fst (h_run_xcase c) = run_xcase c.
+Proof. exact heap_lifecycle_refines_case. Qed.
+Print Assumptions C14_heap_lifecycle_refines.
+
+(* ---------------------------------------------------------------- the boundary of the quantifier *)
+(* "run_until(t) with t not before now": with t BEFORE now the code executes nothing and moves the clock BACK to t - the
+   statement's "never moving backwards" is false there, which is why the quantifier excludes it ... *)
+Theorem C14_boundary_run_until_before_now : forall cfg n endt st st' l ok, inv st -> endt < s_time st ->
+  run_loop cfg (S n) endt st = (st', l, ok) ->
+  l = [] /\ ok = true /\ s_time st' = endt /\ s_time st' < s_time st /\
+  live (s_events st') = live (s_events st) /\ s_steps st' = s_steps st /\ s_uid st' = s_uid st /\ s_dead st' = s_dead st.
+Proof. exact run_until_before_now. Qed.
+Print Assumptions C14_boundary_run_until_before_now.
+
+(* ... and afterwards an absolute time between t and the old clock is accepted (an event "before" events that already ran) *)
+Theorem C14_boundary_backwards_then_past_accepted : forall cfg n endt st st' l ok t p tag h body, inv st -> endt < s_time st ->
+  run_loop cfg (S n) endt st = (st', l, ok) -> endt <= t -> t < s_time st -> unit_ok (c_abm cfg) t = true ->
+  memz h (s_dead st) = false ->
+  snd (do_sched cfg st' KAbs t p tag h body) = R_OK.
+Proof. exact backwards_then_past_accepted. Qed.
+Print Assumptions C14_boundary_backwards_then_past_accepted.
+
+(* a user callable that raises interrupts run_until after the event was popped and its clock set: the simulator is left
+   in the state of a run cut short (the model's out-of-fuel result, up to the rest of the raising callable's own body);
+   that state satisfies the invariants and resuming with the same horizon completes exactly the run *)
+Theorem C14_resume_after_interruption : forall cfg n1 endt st st1 l1 n2 st2 l2 ok,
+  run_loop cfg n1 endt st = (st1, l1, false) -> run_loop cfg n2 endt st1 = (st2, l2, ok) ->
+  run_loop cfg (n1 + n2) endt st = (st2, l1 ++ l2, ok).
+Proof. exact run_loop_resume. Qed.
+Print Assumptions C14_resume_after_interruption.
+
+Theorem C14_interrupted_state_ok : forall cfg n endt st st1 l1, inv st -> s_time st <= endt ->
+  run_loop cfg n endt st = (st1, l1, false) ->
+  inv st1 /\ s_time st <= s_time st1 <= endt /\ (c_abm cfg = true -> step_inv st -> step_inv st1).
+Proof. exact interrupted_state_ok. Qed.
+Print Assumptions C14_interrupted_state_ok.
+
 (* ---------------------------------------------------------------- non-vacuity *)
 (* DEVSimulator: events 1..5 pushed in the order of defect #20 (times 1,3,2,5,4), a tie in time and priority
    (events 6,7 at time 2), one cancelled, one whose holder is dropped; run_until 3 executes 1,3,6,7,2 *)
@@ -432,3 +539,26 @@ Proof.
   - unfold watch. repeat split; try reflexivity. vm_compute. auto 10.
   - unfold survives. split; vm_compute; intuition discriminate.
 Qed.
+
+(* a life cycle: ABM set up, run to tick 2, reset, a run call without a model (refused), an event scheduled, setup refused
+   (events pending), reset, setup accepted, run to tick 1: the step counter restarts with the new model *)
+Definition exl_cfg : config := {| c_abm := true; c_script := [] |}.
+Definition exl_ops : list xop :=
+  [XOp (OSched KAbs 8 PDefault 1 0 []); XOp (ORunUntil 16); XSetup; XReset; XOp ORunNext;
+   XOp (OSched KAbs 8 PDefault 2 0 []); XSetup; XReset; XSetup; XOp (ORunUntil 8); XOp (OCancel 1)].
+Example C14_lifecycle_example :
+  map (fun o => firstn 2 o) (run_xcase {| x_cfg := exl_cfg; x_setup := true; x_fuel := 50%nat; x_ops := exl_ops |})
+  = [[0; 0]; [0; 16]; [-1; E_SETUP_TIME]; [0; 0]; [-1; E_NOSETUP]; [0; 0]; [-1; E_SETUP_EVENTS]; [0; 0]; [0; 0]; [0; 8]; [0; 8]] /\
+  s_steps (m_st (xfinal exl_cfg 50 (xinit exl_cfg true) exl_ops)) = 1 /\
+  xops_ok exl_cfg 50 (xinit exl_cfg true) exl_ops.
+Proof.
+  split; [vm_compute; reflexivity|]. split; [vm_compute; reflexivity|].
+  cbn [xops_ok exl_ops xop_ok]. repeat split; vm_compute; discriminate.
+Qed.
+
+(* the boundary: DEVS at clock 2, run_until(1) moves the clock back to 1 and then accepts an event for 1.5 *)
+Example C14_boundary_example :
+  let st := final ex14_cfg 50 (init ex14_cfg) [ORunUntil 16] in
+  inv st /\ 8 < s_time st /\ s_time (fst (fst (run_loop ex14_cfg 1 8 st))) = 8 /\
+  snd (do_sched ex14_cfg (fst (fst (run_loop ex14_cfg 1 8 st))) KAbs 12 PDefault 1 0 []) = R_OK.
+Proof. cbv zeta. split; [apply inv_final|]. repeat split; vm_compute; reflexivity. Qed.
